@@ -165,11 +165,12 @@ func Impl(args []string) {
 	seed := fs.Int64("seed", 1, "seed")
 	variants := fs.Int("variants", 1, "spellings per case")
 	every := fs.Int("every", 50, "record a trace for one in so many agreeing cases (0: none)")
+	tidbase := fs.Int("tidbase", 0, "first trace id minus one (trace files of several runs are concatenated)")
 	fs.Parse(args)
 	w := tr.NewWriter(*out)
 	sum := implSummary{Suite: "xmldoc", Mode: "impl", KindCount: map[string]int{}, EndCount: map[string]int{}, DriftKinds: map[string]int{}}
 	seenIn := map[string]bool{}
-	tid := 0
+	tid := *tidbase
 	seenCase := map[string]bool{}
 	err := tr.ReadCases(*cases, func(line int, raw []byte) {
 		if seenCase[string(raw)] {
